@@ -1765,7 +1765,43 @@ func dischargeIndexWith(c *Ctx, s *indexSite, inherited int64) (string, string, 
 		hiOK := lenGE(hi)
 		// lo ≤ hi
 		loHi := false
+		// a reslice x[lo':hi] of the very same value with the very same high bound that is evaluated before this one
+		// has already shown 0 ≤ hi ≤ len(x) (it would have panicked otherwise, and is itself a site to be shown);
+		// a search in that reslice answers below its length hi − lo' ≤ hi
+		var sib *ssa.Slice
+		for _, r := range *s.X.Referrers() {
+			sl, ok := r.(*ssa.Slice)
+			if !ok || ssa.Instruction(sl) == s.Ins || sl.X != s.X || sl.High != s.High || sl.High == nil {
+				continue
+			}
+			before := false
+			if sl.Block() == b {
+				for _, ins := range b.Instrs {
+					if ins == ssa.Instruction(sl) {
+						before = true
+						break
+					}
+					if ins == s.Ins {
+						break
+					}
+				}
+			} else {
+				before = ff.Dominates(sl.Block(), b)
+			}
+			if before {
+				sib = sl
+			}
+		}
+		if sib != nil {
+			hiOK = true
+			if call, ok := lo.base.(*ssa.Call); ok && lo.k <= 1 {
+				if subj, ok := indexAPI(call); ok && subj == ssa.Value(sib) {
+					loHi = true
+				}
+			}
+		}
 		switch {
+		case loHi:
 		case lo.base == hi.base:
 			loHi = lo.k <= hi.k
 		case lo.base == nil && hi.base != nil:
@@ -1776,7 +1812,7 @@ func dischargeIndexWith(c *Ctx, s *indexSite, inherited int64) (string, string, 
 				loHi = lo.k <= l
 			}
 		}
-		if hi.base != nil {
+		if hi.base != nil && sib == nil {
 			if l, ok := lowerBound(s.High, facts, map[ssa.Value]bool{}); !ok || l < 0 {
 				if lk, ok := lenKey(hi.base); !(ok && lk == key) {
 					return "", "high bound not known to be non-negative", false
